@@ -34,6 +34,8 @@ type column struct {
 	// unchanged: the list still equals the model
 	unchanged func() string
 	refBody   func(w *refcodec.W)
+	// scribbleIn overwrites every element of a list of this type and appends one more
+	scribbleIn func(l list.AnyList, r *vlib.Rand)
 }
 
 func makeColumn[T any, L tlist[T, L]](k *kind[T, L], vals []T, r *vlib.Rand) *column {
@@ -111,6 +113,11 @@ func makeColumn[T any, L tlist[T, L]](k *kind[T, L], vals []T, r *vlib.Rand) *co
 		return ""
 	}
 	col.refBody = func(w *refcodec.W) { refListInto(w, vals, k.enc) }
+	col.scribbleIn = func(o list.AnyList, r *vlib.Rand) {
+		if tl, ok := k.as(o); ok {
+			scribbleList(k, tl, r)
+		}
+	}
 	return col
 }
 
@@ -248,6 +255,24 @@ func sortCase(c *vlib.Ctx, r *vlib.Rand, prim, child *column, asc, childAsc bool
 	}
 	n := prim.n
 	combo := prim.short + "×" + child.short
+	// lists derived from the two columns: each must stay the selection it was, whatever
+	// happens to its source or to the other derived lists afterwards (see the end)
+	type derived struct {
+		col  *column
+		res  list.AnyList
+		idx  []int
+		what string
+	}
+	var ders []derived
+	filtered := func(col *column, idx []int, what string) (list.AnyList, []int) {
+		res, _ := catchFiltering(col.l, idx)
+		if res != nil {
+			ders = append(ders, derived{col, res, append([]int(nil), idx...), what})
+		}
+		return res, idx
+	}
+
+	violationsBefore := c.Violations()
 
 	// Sorting(asc)
 	var perm []int
@@ -261,7 +286,7 @@ func sortCase(c *vlib.Ctx, r *vlib.Rand, prim, child *column, asc, childAsc bool
 		c.Fail(prim.name+".Sorting:not-permutation", msg, detail(perm))
 	} else if kd, _, msg := checkOrder(perm, prim, asc, nil, false, &st); kd != "" {
 		c.Fail(prim.name+".Sorting:"+kd, msg, detail(perm))
-	} else if msg := prim.checkFiltered(catchFiltering(prim.l, perm)); msg != "" {
+	} else if msg := prim.checkFiltered(filtered(prim, perm, "Filtering(Sorting result) of the primary")); msg != "" {
 		c.Fail(prim.name+".Filtering:filtering", "Filtering(Sorting result): "+msg, detail(perm))
 	}
 
@@ -287,7 +312,7 @@ func sortCase(c *vlib.Ctx, r *vlib.Rand, prim, child *column, asc, childAsc bool
 		c.Count("adjacent_primary_ties", int64(st2.primTies))
 		c.Count("adjacent_ties_decided_by_child", int64(st2.childDecided))
 		// the child column filtered by the same permutation (what the pack does with every column)
-		if msg := child.checkFiltered(catchFiltering(child.l, perm2)); msg != "" {
+		if msg := child.checkFiltered(filtered(child, perm2, "Filtering(SortingAnyList result) of the child")); msg != "" {
 			c.Fail(child.name+".Filtering:filtering", "Filtering(SortingAnyList result) of the child: "+msg, detail(perm2))
 		}
 	}
@@ -314,7 +339,7 @@ func sortCase(c *vlib.Ctx, r *vlib.Rand, prim, child *column, asc, childAsc bool
 		for j := range idx {
 			idx[j] = r.Intn(n)
 		}
-		if msg := prim.checkFiltered(catchFiltering(prim.l, idx)); msg != "" {
+		if msg := prim.checkFiltered(filtered(prim, idx, "Filtering(random index list) of the primary")); msg != "" {
 			d := detail(nil)
 			d["index_list"] = clipInts(idx)
 			c.Fail(prim.name+".Filtering:filtering", msg, d)
@@ -353,10 +378,72 @@ func sortCase(c *vlib.Ctx, r *vlib.Rand, prim, child *column, asc, childAsc bool
 			c.Fail(prim.name+".Filtering:"+kd, fmt.Sprintf("Filtering(%v) on a list of size %d (backing length %d) did not report the index; it returned %d elements", idx, n, tl, sz), d)
 		}
 	}
+	// independence of sources, derived lists and index slices (this changes the lists, so it
+	// is the last thing done with them; the models prim/child hold are not touched)
+	permShown, perm2Shown := append([]int(nil), perm...), append([]int(nil), perm2...)
+	if c.Violations() == violationsBefore {
+		aliased := func(col *column, step, msg string) {
+			d := detail(nil)
+			d["step"] = step
+			c.Fail(col.name+".Filtering:aliased", step+": "+msg, d)
+		}
+		stillOK := func(step string, from int) bool {
+			if msg := prim.unchanged(); msg != "" {
+				aliased(prim, step+", the primary list changed", msg)
+				return false
+			}
+			if msg := child.unchanged(); msg != "" {
+				aliased(child, step+", the child list changed", msg)
+				return false
+			}
+			for _, d := range ders[from:] {
+				if msg := d.col.checkFiltered(d.res, d.idx); msg != "" {
+					aliased(d.col, step+", the list from "+d.what+" changed", msg)
+					return false
+				}
+			}
+			return true
+		}
+		ok := true
+		// the index slices handed to Filtering / returned by Sorting are overwritten
+		for j := range perm {
+			perm[j] = -1 - j
+		}
+		for j := range perm2 {
+			perm2[j] = -1 - j
+		}
+		ok = stillOK("after overwriting the index slices returned by Sorting and SortingAnyList", 0)
+		// every derived list is overwritten in turn
+		for j := 0; ok && j < len(ders); j++ {
+			ders[j].col.scribbleIn(ders[j].res, r)
+			ok = stillOK("after changing every element of the list from "+ders[j].what, j+1)
+		}
+		// and the other direction: the sources are overwritten, fresh derived lists stay
+		if ok {
+			ders = ders[:0]
+			if n > 0 {
+				ident := make([]int, n)
+				for j := range ident {
+					ident[j] = j
+				}
+				filtered(prim, ident, "Filtering(identity) of the primary")
+				filtered(child, ident[:minI(n, child.n)], "Filtering(identity) of the child")
+			}
+			prim.scribbleIn(prim.l, r)
+			child.scribbleIn(child.l, r)
+			for _, d := range ders {
+				if msg := d.col.checkFiltered(d.res, d.idx); msg != "" {
+					aliased(d.col, "after changing every element of the source, the list from "+d.what+" changed", msg)
+					break
+				}
+			}
+		}
+		c.Count("sort_independence_checks", 1)
+	}
 	if wantSample(c, "sort") && n >= 4 && n <= 8 && st2.childDecided > 0 {
 		tookSample("sort")
 		c.Sample(map[string]interface{}{"kind": "sort", "primary_type": prim.name, "primary": prim.all(), "child_type": child.name, "child": child.all(),
-			"asc": asc, "child_asc": childAsc, "Sorting": perm, "SortingAnyList": perm2})
+			"asc": asc, "child_asc": childAsc, "Sorting": permShown, "SortingAnyList": perm2Shown})
 	}
 }
 
